@@ -707,7 +707,9 @@ class GriffeLoader:
         return [
             (imported_member, wildcard_obj.alias_lineno, wildcard_obj.alias_endlineno)
             for imported_member in module.members.values()
-            if imported_member.is_wildcard_exposed
+            # Wildcard imports of the module itself are not expanded yet when it (indirectly) imports from itself:
+            # these placeholders are not objects, they must never be exposed.
+            if imported_member.is_wildcard_exposed and not (imported_member.is_alias and imported_member.wildcard)
         ]
 
 
